@@ -119,3 +119,125 @@ pub fn expect_lzma(data: &[u8], opt: Opt, memlimit: Option<u64>) -> Expect {
     e.consumed = e.consumed.map(|c| c + hl);
     e
 }
+
+// ------------------------------------------------------------------------ LZMA2 (byte level)
+
+/// Reference LZMA2 decoder: the format rules of Lzma2.tla evaluated on bytes with the
+/// reference symbol decoder.  Format-invalid-but-unlisted inputs (first chunk without
+/// dictionary reset, LZMA chunk without properties) are `Any`.
+pub fn expect_lzma2(data: &[u8]) -> Expect {
+    use crate::coding::{Probs, CS};
+    let mut pos = 0usize;
+    let mut total: Vec<u8> = vec![];
+    let mut cs = CS::default();
+    let mut probs = Probs::default();
+    let mut props: Option<Props> = None;
+    let mut need_dict_reset = true;
+    let mut need_props = true;
+    let mut lenient = false;
+    let mut nsyms = 0usize;
+    let fin = |v: Exp, class: &str, total: &Vec<u8>, cs: &CS, consumed: Option<usize>, nsyms: usize| {
+        let mut out = total.clone();
+        out.extend_from_slice(&cs.out);
+        Expect { v, out, class: class.to_string(), consumed, need: 0, nsyms }
+    };
+    loop {
+        if pos >= data.len() {
+            return fin(Exp::Err, "missing-end", &total, &cs, None, nsyms);
+        }
+        let c = data[pos];
+        pos += 1;
+        if c == 0 {
+            let v = if lenient { Exp::Any } else { Exp::Ok };
+            return fin(v, if lenient { "lenient-reset-discipline" } else { "end" }, &total, &cs, Some(pos), nsyms);
+        }
+        if c == 1 || c == 2 {
+            if pos + 2 > data.len() {
+                return fin(Exp::Err, "raw-header-short", &total, &cs, None, nsyms);
+            }
+            let n = ((data[pos] as usize) << 8 | data[pos + 1] as usize) + 1;
+            pos += 2;
+            if c == 1 {
+                total.extend_from_slice(&cs.out);
+                cs.out.clear();
+                need_dict_reset = false;
+                need_props = true;
+            } else if need_dict_reset {
+                lenient = true;
+            }
+            if pos + n > data.len() {
+                return fin(Exp::Err, "raw-short", &total, &cs, None, nsyms);
+            }
+            cs.out.extend_from_slice(&data[pos..pos + n]);
+            pos += n;
+            nsyms += 1;
+            continue;
+        }
+        if c < 0x80 {
+            return fin(Exp::Err, "control", &total, &cs, None, nsyms);
+        }
+        let class = (c >> 5) & 3;
+        if pos + 4 > data.len() {
+            return fin(Exp::Err, "lzma-header-short", &total, &cs, None, nsyms);
+        }
+        let unpacked = ((((c & 0x1F) as usize) << 16) | (data[pos] as usize) << 8 | data[pos + 1] as usize) + 1;
+        let packed = ((data[pos + 2] as usize) << 8 | data[pos + 3] as usize) + 1;
+        pos += 4;
+        if class == 3 {
+            total.extend_from_slice(&cs.out);
+            cs.out.clear();
+            need_dict_reset = false;
+        } else if need_dict_reset {
+            lenient = true;
+        }
+        if class >= 1 {
+            cs.st = 0;
+            cs.rep = [0; 4];
+            probs.reset();
+        }
+        if class >= 2 {
+            if pos >= data.len() {
+                return fin(Exp::Err, "props-missing", &total, &cs, None, nsyms);
+            }
+            let pb = data[pos];
+            pos += 1;
+            match Props::from_byte(pb) {
+                Some(p) if p.lc + p.lp <= 4 => props = Some(p),
+                _ => return fin(Exp::Err, "props", &total, &cs, None, nsyms),
+            }
+            need_props = false;
+        } else if need_props {
+            lenient = true;
+        }
+        let p = props.unwrap_or(Props { lc: 0, lp: 0, pb: 0 });
+        let avail = data.len() - pos;
+        let take = packed.min(avail);
+        let payload = &data[pos..pos + take];
+        let target = cs.out.len() as u64 + unpacked as u64;
+        let r = match refdec::decode(payload, p, u64::MAX, Some(target), Some((cs.clone(), probs.clone()))) {
+            None => return fin(Exp::Err, "packed-short(preamble)", &total, &cs, None, nsyms),
+            Some(r) => r,
+        };
+        nsyms += r.syms.len();
+        let base = cs.out.len();
+        let ok = r.end == End::SizeReached && r.out.len() as u64 == target && r.consumed == take && take == packed && r.final_clean;
+        if !ok {
+            let class_s = match r.end {
+                End::BadDistance => "dist",
+                End::Truncated => "chunk-input-short",
+                End::Eos { .. } => "eos-in-chunk",
+                End::SizeReached if r.out.len() as u64 != target => "unpacked-less-inside-match",
+                End::SizeReached => "chunk-has-spare-input",
+                End::CleanEndNoMarker => "chunk-input-short",
+            };
+            // valid prefix produced before the failure
+            let mut keep = cs.clone();
+            keep.out = r.out[..r.out.len().min(target as usize).max(base)].to_vec();
+            // a failing copy may not be applied at all: the guaranteed-valid prefix is what the symbols before it gave
+            return fin(Exp::Err, class_s, &total, &keep, None, nsyms);
+        }
+        cs = r.final_cs;
+        probs = r.final_probs;
+        pos += take;
+    }
+}
